@@ -1241,6 +1241,7 @@ func c19RunP1(c *c19Case, r *core.Rec) {
 		runtime.ReadMemStats(&ms0)
 		var verr error
 		var res par1.VerifyResult
+		stagedImproved := false
 		pi := core.Catch(func() {
 			switch op {
 			case "verify":
@@ -1263,15 +1264,20 @@ func c19RunP1(c *c19Case, r *core.Rec) {
 				}
 				// a refused call is made a second time on the same object (a refusal must not be forgotten by the time of
 				// the next call)
-				if _, verr = d.VerifyAllData(); verr != nil {
+				var ok1 bool
+				if ok1, verr = d.VerifyAllData(); verr != nil {
 					_, verr = d.VerifyAllData()
 					if _, rerr := d.Repair(len(c.Muts) == 2); rerr != nil {
 						d.Repair(len(c.Muts) == 2)
 					}
-					return
-				}
-				if _, verr = d.Repair(len(c.Muts) == 2); verr != nil {
+				} else if _, verr = d.Repair(len(c.Muts) == 2); verr != nil {
 					_, verr = d.Repair(len(c.Muts) == 2)
+				}
+				// nothing was written: the full check cannot have got better by Repair having been refused
+				if len(f2.Writes()) == 0 {
+					if ok3, err3 := d.VerifyAllData(); ok3 && err3 == nil && !ok1 {
+						stagedImproved = true
+					}
 				}
 			}
 		})
@@ -1289,6 +1295,9 @@ func c19RunP1(c *c19Case, r *core.Rec) {
 		}
 		if alloc > bound {
 			r.Violatef("allocation-out-of-proportion:"+op, "%s allocated %d bytes with %d bytes of files present (bound %d)", what, alloc, presentBytes, bound)
+		}
+		if stagedImproved {
+			r.Violatef("verify-alldata-true-after-refused-repair", "%s: VerifyAllData did not report all data ok, Repair wrote nothing, and VerifyAllData on the same object then reported all data ok", what)
 		}
 		r.Outcome(fmt.Sprintf("p1 %s %s", op, errClass(verr)))
 		if op == "verify" && verr == nil {
